@@ -11,6 +11,7 @@ import (
 	"path/filepath"
 	"regexp"
 	"runtime/debug"
+	"runtime/pprof"
 	"sort"
 	"strconv"
 	"strings"
@@ -203,6 +204,10 @@ func (it *Interp) resetPath(prefix []int) {
 	it.stack = nil
 	it.model = nil
 	it.modelMemo = nil
+	it.model = Model{}
+	it.modelMemo = map[*Term]*Term{}
+	it.pcVars = map[*Term]bool{}
+	it.pcSeen = map[*Term]bool{}
 	it.varRange = map[*Term][2]int64{}
 	it.ivMemo = map[*Term][3]int64{}
 	it.initThreads()
@@ -590,7 +595,15 @@ func main() {
 	noReplay := flag.Bool("no-replay", false, "skip native replays (debugging)")
 	flag.StringVar(&repoDir, "repo", "/repo", "")
 	flag.StringVar(&verifDir, "verif", "/verif", "")
+	debug.SetGCPercent(600)
+	cpuprof := flag.String("cpuprofile", "", "write cpu profile")
 	flag.Parse()
+	if *cpuprof != "" {
+		f, _ := os.Create(*cpuprof)
+		pprof.StartCPUProfile(f)
+		defer pprof.StopCPUProfile()
+		go func() { time.Sleep(40 * time.Second); pprof.StopCPUProfile(); f.Close() }()
+	}
 	if v := os.Getenv("VERIF_TIER"); v != "" && *tier == "" {
 		*tier = v
 	}
